@@ -68,6 +68,14 @@ def main():
     fb = strip_tests(read("filter_block.rs"))
     grab("filterBaseLog2", fb, r"const FILTER_BASE_LOG2: u32 = (\d+);")
 
+    tbk = strip_tests(read("table_block.rs"))
+    # fix D20: the declared uncompressed length of a snappy block is checked against this multiple of the
+    # compressed length before the decoder allocates it
+    if re.search(r"let declared = snap::raw::decompress_len\(&buf\)\?;\s*if declared > buf\.len\(\)\.saturating_mul\(SNAPPY_MAX_EXPANSION\) \{\s*return err\(\s*StatusCode::CompressionError,", tbk):
+        grab("snappyMaxExpansion", tbk, r"const SNAPPY_MAX_EXPANSION: usize = (\d+);")
+    else:
+        missing.append("snappyMaxExpansion")
+
     fl = strip_tests(read("filter.rs"))
     grab("bloomSeed", fl, r"const BLOOM_SEED: u32 = (0x[0-9a-fA-F]+);")
     grab("bloomM", fl, r"let m: u32 = (0x[0-9a-fA-F]+);")
@@ -136,7 +144,7 @@ def main():
     for k in ["footerLength", "fullFooterLength", "tableBlockCompressLen", "tableBlockCksumLen", "maskDelta",
               "maskShr", "maskShl", "unmaskShr", "unmaskShl", "filterBaseLog2", "bloomSeed", "bloomM", "bloomR",
               "bloomMidShift", "bloomDeltaShr", "bloomDeltaShl", "bloomKNum", "bloomKMin", "bloomKMax",
-              "bloomMinBits", "bloomBitsWidth", "compressionNone", "compressionSnappy", "defaultBlockSize",
+              "bloomMinBits", "bloomBitsWidth", "snappyMaxExpansion", "compressionNone", "compressionSnappy", "defaultBlockSize",
               "defaultRestartInterval", "defaultBitsPerKey"]:
         if k in found:
             L.append(f"def {k} : Nat := {found[k]}")
